@@ -47,7 +47,7 @@ def handoverReq (d : Bytes) : Out Dec :=
         if !c.canRead pad.toNat then pure .malformed else do             -- !stream.can_read(*opt.data_ptr())
         -- key.assign(stream.pointer(), stream.pointer() + stream.size() - *opt.data_ptr())
         let key ← rdRange "handover_key_req_type::from_option key.assign" c.mem 0 (0 + c.size - pad.toNat)
-        pure (.val s!"{at_ / 16 % 4}.{hexStr key}")
+        pure (.val s!"{at_ / 16 % 16}.{hexStr key}")
       | .throw _ => pure .malformedPkt
       | .fault s => .fault s
     | .throw _ => pure .malformedPkt
@@ -66,7 +66,7 @@ def handoverReply (d : Bytes) : Out Dec :=
           let pad ← rd "handover_key_reply_type::from_option *opt.data_ptr()" d 0
           if !c.canRead pad.toNat then pure .malformed else do
           let key ← rdRange "handover_key_reply_type::from_option key.assign" c.mem 0 (0 + c.size - pad.toNat)
-          pure (.val s!"{lifetime}.{at_ / 16 % 4}.{hexStr key}")
+          pure (.val s!"{lifetime}.{at_ / 16 % 16}.{hexStr key}")
         | .throw _ => pure .malformedPkt
         | .fault s => .fault s
       | .throw _ => pure .malformedPkt
